@@ -158,7 +158,13 @@ func npmEntry(r crec, k int, l lay, v1 bool, nested obj) any {
 		if v1 {
 			e = append(e, kv{"requires", ranges})
 		} else {
-			e = append(e, kv{"license", "MIT"}, kv{"dependencies", ranges}, kv{"engines", obj{{"node", ">=6.9.0"}}})
+			e = append(e, kv{"license", "MIT"}, kv{"dependencies", ranges})
+			// npm copies these fields verbatim from each package's manifest: old packages use the legacy shapes
+			if k%2 == 0 {
+				e = append(e, kv{"engines", arr{"node >=0.6.0"}}, kv{"os", arr{"!win32"}}, kv{"deprecated", "use something else"})
+			} else {
+				e = append(e, kv{"engines", obj{{"node", ">=6.9.0"}}}, kv{"cpu", arr{"x64", "arm64"}}, kv{"hasInstallScript", true})
+			}
 		}
 	default:
 		e = obj{{"resolved", resolved}, {"integrity", fakeSha512}}
@@ -166,7 +172,12 @@ func npmEntry(r crec, k int, l lay, v1 bool, nested obj) any {
 			e = append(e, kv{"requires", obj{{r.Name + "-helper", "^9.9.9"}}}, kv{"optional", true})
 		} else {
 			e = append(e, kv{"dependencies", obj{{r.Name + "-helper", "^9.9.9"}}}, kv{"peerDependencies", obj{{"react", ">=16"}}},
-				kv{"bin", obj{{"tool", "bin/tool.js"}}}, kv{"funding", obj{{"url", "https://opencollective.com/x"}}}, kv{"optional", true})
+				kv{"bin", obj{{"tool", "bin/tool.js"}}}, kv{"optional", true})
+			if k%2 == 0 {
+				e = append(e, kv{"funding", arr{obj{{"type", "github"}, {"url", "https://github.com/sponsors/x"}}, "https://opencollective.com/x"}}, kv{"license", obj{{"type", "MIT"}}})
+			} else {
+				e = append(e, kv{"funding", obj{{"url", "https://opencollective.com/x"}}}, kv{"engines", arr{"node >= 0.8"}})
+			}
 		}
 		e = append(e, kv{"version", r.Raw})
 	}
